@@ -118,12 +118,14 @@ def gen_1d(rng, tier):
     for v in ([1.5], [2.0, 2.0], [0.0, 0.0, 0.0], [1.0, 4.0], [4.0, 1.0, 4.0], [-1.0, 0.0, 1.0]):
         perm = list(range(len(v)))[::-1]
         cases.append({'kind': 'small', 'x': v, 'perm': perm, 'a': -2, 't': 0.75})
+    for i, c_ in enumerate(cases):       # every third case in double precision (repair 3c58105: dcf_1d raised for float64)
+        c_['f64'] = i % 3 == 1
     return cases
 
 
 def impl_1d(c):
     from mrpro.algorithms.dcf import dcf_1d
-    x = torch.tensor(c['x'], dtype=torch.float32)
+    x = torch.tensor(c['x'], dtype=torch.float64 if c.get('f64') else torch.float32)
     out = {'w': dcf_1d(x).tolist()}
     if len(c['x']):
         out['perm'] = dcf_1d(x[c['perm']]).tolist()
@@ -578,6 +580,8 @@ def gen_traj(rng, tier):
             geo = [[1, 2]]
         cases.append({'layout': lay, 'ks': ks, 'geo': geo, 'a': rng.choice([2, -2, 0.5, 3]),
                       't': [rng.randint(-8, 8) * L for _ in range(3)]})
+    for i, c_ in enumerate(cases):       # every third trajectory in double precision (repair 3c58105: dcf_1d raised for float64)
+        c_['f64'] = i % 3 == 1
     return cases
 
 
@@ -585,8 +589,8 @@ def _bshape(ks):
     return [max(k['shape'][d] for k in ks) for d in range(3)]
 
 
-def _ktensor(k, f=lambda v: v):
-    return torch.tensor([f(v) for v in k['data']], dtype=torch.float32).reshape(1, *k['shape'])
+def _ktensor(k, f=lambda v: v, dt=torch.float32):
+    return torch.tensor([f(v) for v in k['data']], dtype=dt).reshape(1, *k['shape'])
 
 
 def _from_traj(tensors):
@@ -598,7 +602,7 @@ def _from_traj(tensors):
 def impl_traj(c):
     ks = c['ks']
     bs = _bshape(ks)
-    base = [_ktensor(k) for k in ks]
+    base = [_ktensor(k, dt=torch.float64 if c.get('f64') else torch.float32) for k in ks]
     d = _from_traj(base)
     out = {'shape': list(d.shape), 'w': d.flatten().tolist()}
     # dense representation of the varying axes (a constant axis stays a singleton: a plane has no bounded 3-D cells)
